@@ -233,8 +233,13 @@ def gen_op(rng, r, weights, bad_rate=0.08, max_pool=7, max_rows=9):
     if not P:
         return {'op': 'new', 'n': rng.randint(0, 6)}
     plan = getattr(r, 'plan', None)
-    if plan:
-        return plan.pop(0)
+    while plan:
+        o_ = plan.pop(0)
+        # a directed plan refers to tables its earlier steps were to create: when such a step failed on the
+        # implementation at hand (no table appeared), the rest of the plan is dropped
+        if all(o_.get(k_, 0) < len(P) for k_ in ('t', 't2')):
+            return o_
+        del plan[:]
     if weights.get('merge', 0) >= 10 and len(P) + 3 <= max_pool and rng.random() < 0.12:
         made = plan_merge(rng, r)
         if made:
